@@ -1,6 +1,7 @@
 package c13
 
 import (
+	"context"
 	"fmt"
 	"io"
 	"net/http"
@@ -25,6 +26,9 @@ type OpDefaults struct {
 	OpJar       bool   `json:"op_client_has_jar"`
 	Warm        bool   `json:"runtime_jar_holds_cookie_from_earlier_call"`
 	OpTransport bool   `json:"op_client_has_transport"`
+	// OpCtx: the operation carries exactly context.Background() / context.TODO() while the transport-wide
+	// context is already cancelled: the operation's (live) context governs the call
+	OpCtx string `json:"op_context,omitempty"` // "" | background | todo
 }
 
 type countingRT struct {
@@ -78,11 +82,26 @@ func runOpDefaults(m *mon.M, c *OpDefaults) {
 	if c.OpJar {
 		op.Client.Jar, _ = cookiejar.New(nil)
 	}
+	switch c.OpCtx {
+	case "background":
+		op.Context = context.Background()
+	case "todo":
+		op.Context = context.TODO()
+	}
+	if c.OpCtx != "" {
+		dead, cancel := context.WithCancel(context.Background())
+		cancel()
+		r.Context = dead
+	}
 	var err error
 	pv, st := mon.Catch(func() { _, err = r.Submit(op) })
-	m.NT(fmt.Sprintf("op-client-defaults|%v|%v|%v", c.OpJar, c.Warm, c.OpTransport))
+	m.NT(fmt.Sprintf("op-client-defaults|%v|%v|%v|%s", c.OpJar, c.Warm, c.OpTransport, c.OpCtx))
 	if pv != nil {
 		m.Violate("op-client-defaults/panic", fmt.Sprintf("%v\n%s", pv, st), c)
+		return
+	}
+	if err != nil && c.OpCtx != "" {
+		m.Violate("op-context-ignored/plain-"+c.OpCtx, fmt.Sprintf("the operation carries context.%s() (live) and the transport-wide context is cancelled: the call failed with %v", map[string]string{"background": "Background", "todo": "TODO"}[c.OpCtx], err), c)
 		return
 	}
 	if err != nil {
